@@ -33,11 +33,26 @@ def classify_known(prop, case, known):
 
 def evaluate(mod, lines, wd, tag, env=None):
     """Runs implementation, model and oracle on the case lines."""
-    impl = run_sharded(HARNESS_BIN, lines, wd, tag + "-impl", timeout=mod_timeout(mod), env=env,
-                       shards=getattr(mod, "IMPL_SHARDS", NPROC))
+    e = dict(env or {})
+    e.setdefault("TH_SOCK_DIR", wd)
     model = run_sharded(DRIVER_BIN, lines, wd, tag + "-model", timeout=mod_timeout(mod))
-    spec_in = ["spec:%s %s | %s" % (mod.ID, c, o) for c, o in zip(lines, impl)]
-    spec = run_sharded(DRIVER_BIN, spec_in, wd, tag + "-spec", timeout=mod_timeout(mod))
+    # the model may tell the harness how many response bytes to wait for (never what they are)
+    if hasattr(mod, "hint"):
+        impl_lines = [mod.hint(c, m) for c, m in zip(lines, model)]
+    else:
+        impl_lines = lines
+    impl = run_sharded(HARNESS_BIN, impl_lines, wd, tag + "-impl", timeout=mod_timeout(mod), env=e,
+                       shards=getattr(mod, "IMPL_SHARDS", NPROC))
+    if hasattr(mod, "oracle"):
+        spec = []
+        for c, o in zip(lines, impl):
+            try:
+                spec.append(mod.oracle(c, o))
+            except Exception as ex:  # an oracle that cannot read the observation is a failure, not a pass
+                spec.append("FAIL oracle exception: %r" % (ex,))
+    else:
+        spec_in = ["spec:%s %s | %s" % (mod.ID, c, o) for c, o in zip(lines, impl)]
+        spec = run_sharded(DRIVER_BIN, spec_in, wd, tag + "-spec", timeout=mod_timeout(mod))
     return impl, model, spec
 
 
@@ -109,6 +124,11 @@ def run_property(mod, tier, seed, replay=None):
             failures.append((i, "oracle did not answer: " + sp[:200]))
         if mod.nontrivial(c, mo):
             distinct.add(c)
+
+    if os.environ.get("VERIF_DUMP"):
+        with open(os.environ["VERIF_DUMP"], "w") as df:
+            for i in disagreements[:500]:
+                df.write("case: %s\nimpl:  %s\nmodel: %s\n\n" % (lines[i], impl[i], model[i]))
 
     def replay_text(i, why):
         return ("# property %s, tier %s, seed %d\n# %s\ncase: %s\nimpl:  %s\nmodel: %s\noracle: %s\n"
